@@ -20,6 +20,7 @@ def main(argv=None):
     ap.add_argument('--replay')
     ap.add_argument('--repo')
     ap.add_argument('--rules', help='comma separated rule ids (R1,R3) -- debugging aid; evidence is not written')
+    ap.add_argument('--no-evidence', action='store_true', help='do not write evidence / replay files (scratch trees, self tests)')
     ap.add_argument('--jobs', type=int, default=int(os.environ.get('VERIF_JOBS', '0') or 0))
     args = ap.parse_args(argv)
     t0 = time.time()
@@ -60,7 +61,7 @@ def main(argv=None):
             from . import mut
             extra_cov, extra_unknown = mut.audit(forest, prop, results, jobs=args.jobs or (os.cpu_count() or 4))
         code, _ = core.summarize(prop, args.tier, results, fx, t0, extra_cov=extra_cov,
-                                 write=not only, extra_violations=extra_viol, extra_unknown=extra_unknown)
+                                 write=not only and not args.no_evidence, extra_violations=extra_viol, extra_unknown=extra_unknown)
         return code
     except SystemExit:
         raise
